@@ -245,6 +245,22 @@ def run(R):
         R.check(sel_assigned, "C05.FLUSH-SELECTED", "%s:%s" % (fo.qualname, q.stmt_key(call)), R.site(fo, call),
                 "the flushed batch is the result of the selection method",
                 "the flushed batch %r is not the value returned by %s" % (arg, sel.qualname))
+        # nothing is removed or flushed when the selection found no batch (it returns None then)
+        def have_batch(nd, arg=arg):
+            if nd.kind != "test":
+                return None
+            k_, s_, pos_ = q.atom_test(nd.ast)
+            if k_ == "isnone" and s_ == arg:
+                return "F" if pos_ else "T"
+            if k_ == "truth" and s_ == arg:
+                return "T" if pos_ else "F"
+            return None
+        users = [node] + [n for n, c in removes]
+        p = kit.path_avoiding_guard(fcfg, users, have_batch, N)
+        R.check(p is None, "C05.FLUSH-SELECTED", "%s:%s:not-none" % (fo.qualname, q.stmt_key(call)), R.site(fo, call),
+                "the batch is removed and flushed only when the selection returned one",
+                "when no batch is pending (the selection returns None) %s still goes on to remove / flush `%s`: KeyError or AttributeError escapes wait_for in the "
+                "round in which a nested flush has already answered everything" % (fo.name, arg), fcfg.fmt_path(p) if p else None)
     R.require_min("C05.REMOVE-BEFORE-FLUSH", 1)
 
     # DONE-CHECK ------------------------------------------------------------------------
